@@ -302,7 +302,7 @@ def replay_build(descriptive=False):
     cur = os.path.join(REPLAY_DIR, 'Cargo.toml')
     if not os.path.exists(cur) or open(cur).read() != tmpl:
         open(cur, 'w').write(tmpl)
-    cmd = ['cargo', 'build', '--release', '--offline']
+    cmd = ['cargo', 'build', '--release', '--offline', '--bin', 'replay']
     tdir = 'target'
     if descriptive:
         # second configuration (C19): same harness, real crate compiled with feature descriptive-deserialize-errors
@@ -312,6 +312,51 @@ def replay_build(descriptive=False):
     if rc != 0:
         raise Undecided('replay crate does not build against the current tree%s: %s' % (' (feature descriptive-deserialize-errors)' if descriptive else '', err[-2500:]))
     return os.path.join(REPLAY_DIR, tdir, 'release', 'replay')
+
+
+def gluezoo_build():
+    """second binary of the replay crate, built on demand only: the zoo schemas of unit glue compiled by the real proc macro of the current
+    tree, with a generic round-trip harness (counterexample engine for failed glue obligations; replay/src/bin/gluezoo.rs)"""
+    mods, table = [], []
+    for sch in props.GLUE_ZOO:
+        text = open(os.path.join(VERIF, 'contracts', 'zoo', sch)).read()
+        mod = re.sub(r'\W', '_', sch.rsplit('.', 1)[0])
+        mods.append('pub mod %s {\n    use asn1rs::prelude::*;\n    asn_to_rust!(\n        r#"%s"#\n    );\n}\n' % (mod, text))
+        for m in re.finditer(r'^\s*([A-Z]\w*)\s*::=', text, re.M):
+            table.append('    ("%s::%s", rt::<%s::%s>),' % (sch, m.group(1), mod, m.group(1)))
+    gen = ('// GENERATED from contracts/zoo/*.asn by tools/run.py -- do not edit\n' + '\n'.join(mods)
+           + '\npub const TYPES: &[(&str, fn(&[u8], usize) -> Result<bool, String>)] = &[\n' + '\n'.join(table) + '\n];\n')
+    path = os.path.join(REPLAY_DIR, 'src', 'bin', 'gluezoo_gen.rs')
+    if not os.path.exists(path) or open(path).read() != gen:
+        open(path, 'w').write(gen)
+    replay_build()      # Cargo.toml / Cargo.lock in place
+    rc, out, err, wall = sh(['cargo', 'build', '--release', '--offline', '--bin', 'gluezoo'], cwd=REPLAY_DIR, timeout=1200)
+    if rc != 0:
+        raise Undecided('the zoo schemas of unit glue do not compile with the macros of the current tree: %s' % err[-1500:])
+    return os.path.join(REPLAY_DIR, 'target', 'release', 'gluezoo')
+
+
+def gluezoo_search(seed, budget, obligation):
+    """(failing input as dict or None, tail of the output)"""
+    binary = gluezoo_build()
+    m = re.search(r'glue::([\w.]+)::(?:verif_g\d+_\w+?_)?(\w+?)(?: as |::|$)', obligation)
+    only = []
+    if m:
+        only = ['%s::%s' % (m.group(1), m.group(2))]
+    for flt in (only, []):
+        if flt == [] and only == []:
+            pass
+        rc, out, err, wall = sh([binary, 'search', str(seed), str(budget)] + flt, timeout=600)
+        if rc == 1:
+            mm = re.search(r'FAILING-INPUT (.*)', out)
+            if mm:
+                return json.loads(mm.group(1)), out[-3000:]
+        elif rc != 0:
+            # the process died inside the real code: rerun is not worth it here, report the tail
+            return None, (out + err)[-1500:]
+        if not only:
+            break
+    return None, out[-600:]
 
 
 def replay_run(binary, args, timeout=600):
@@ -585,6 +630,20 @@ def check(pid, tier, seed):
         payload = {'property': pid, 'obligation': name, 'function': f['function'], 'repo_file': f['repo_file'], 'repo_lines': f['repo_lines'],
                    'unit': r['unit'], 'verifier': 'verus', 'verifier_cmd': r['cmd'], 'verifier_output': f['diagnostic'], 'kind': 'obligation'}
         found = None
+        if f.get('glue'):
+            # failed obligation on macro output: look for an input on the same zoo types compiled by the real macro of this tree
+            try:
+                key = 'gluezoo:' + name.split('::')[2] if name.count('::') >= 2 else 'gluezoo'
+                if key not in search_cache:
+                    search_cache[key] = gluezoo_search(seed, 200000 if tier == 'quick' else 2000000, name)
+                    search_runs.append({'group': 'gluezoo', 'for': name[:160], 'found': search_cache[key][0] is not None, 'summary': search_cache[key][1].strip().split('\n')[-1][:300]})
+                inp, tail = search_cache[key]
+                if inp is not None:
+                    found = json.dumps(inp)
+                    payload['input'] = inp
+                    payload['search_output'] = tail
+            except Undecided as ex:
+                payload['counterexample_search'] = 'gluezoo not available: %s' % str(ex)[:600]
         groups = [group] if group else []
         groups += [g for g in cfg.get('search_groups', []) if g not in groups]
         for g in groups:
@@ -795,6 +854,9 @@ def replay(path):
         binary = replay_build()
         if payload.get('kind') == 'probe':
             rc, out, err, wall = replay_run(binary, ['probe', payload['probe']])
+        elif isinstance(payload.get('input'), dict) and payload['input'].get('group') == 'gluezoo':
+            i = payload['input']
+            rc, out, err, wall = sh([gluezoo_build(), 'replay', i['type'], str(i['bits'])] + [str(b) for b in i['bytes']], timeout=120)
         else:
             rc, out, err, wall = replay_run(binary, ['replay', json.dumps(payload['input'])])
         print('--- replay against the real code ---')
